@@ -481,6 +481,27 @@ pub fn gen_tracker_case(seed: u64, o: &WorldOpts) -> TrackerCase {
             dets.push(d);
         }
         r.shuffle(&mut dets);
+        // nested detection: a concentric smaller / bigger copy of one detection (same centre and
+        // angle, other size) at a random place of the list - own random stream, so older seeds
+        // keep the rest of their history
+        if (o.own_area || o.stress) && !dets.is_empty() {
+            let salt = ((*serial as u64) << 40) ^ ((dets.len() as u64) << 32) ^ dets[0].b.xc.to_bits() as u64;
+            let mut r2 = Rng::new(crate::sched::mix(seed ^ 0x004E_57ED_B0C5, salt));
+            if r2.chance(1, 6) {
+                let k = r2.below(dets.len() as u64) as usize;
+                let mut d = dets[k].clone();
+                d.b.height *= *r2.pick(&[0.45f32, 0.6, 1.5, 1.9]);
+                if r2.chance(1, 2) {
+                    d.b.aspect *= *r2.pick(&[0.8f32, 1.25]);
+                }
+                d.truth = u32::MAX - 2;
+                d.feature = None;
+                d.quality = None;
+                d.custom = None;
+                let at = r2.below(dets.len() as u64 + 1) as usize;
+                dets.insert(at, d);
+            }
+        }
         dets
     };
     for _f in 0..frames {
